@@ -285,6 +285,11 @@ def build_cpp(name, flags=None, src=None, extra_inc=(), timeout=1800):
 
 
 def run_lines(exe, lines, timeout=1800, env=None):
+    dump = os.environ.get('VERIF_DUMP_LINES')          # development aid: keep the inputs every harness was fed (coverage measurements)
+    if dump:
+        os.makedirs(dump, exist_ok=True)
+        with open(os.path.join(dump, os.path.basename(exe).split('-')[0] + '.lines'), 'a') as fh:
+            fh.write('\n'.join(lines) + '\n')
     rc, out = sh([exe], input='\n'.join(lines) + '\n', timeout=timeout, env=env)
     return rc, out.split('\n')[:-1] if out.endswith('\n') else out.split('\n')
 
